@@ -115,6 +115,9 @@ func c06Exprs(tier string) []c06Expr {
 		}
 		for _, c2 := range cs {
 			out = append(out, c06Expr{ref.Case{Whens: []ref.Node{c1, c2}, Thens: []ref.Node{sl("first"), sl("second")}, Else: sl("none")}, "case-searched-2", false})
+			// compound conditions inside WHEN
+			out = append(out, c06Expr{ref.Case{Whens: []ref.Node{bin("AND", c1, c2)}, Thens: []ref.Node{sl("both")}, Else: sl("no")}, "case-when-and", false},
+				c06Expr{ref.Case{Whens: []ref.Node{bin("OR", c1, c2)}, Thens: []ref.Node{nl("1")}, Else: nl("0")}, "case-when-or", false})
 		}
 	}
 	out = append(out,
